@@ -267,7 +267,27 @@ def _copy(stg, c, tmp, R):
             fr = base
             fr.get_waterfall()
         had_wf = fr.waterfall is not None
+
+        def wf_state(f_):
+            if f_.waterfall is None:
+                return None
+            # identity cards of the file the frame came from; the geometry cards (fch1, foff, nchans, tstart, tsamp) are
+            # legitimately refreshed from the frame whenever its Waterfall is requested
+            def norm(x):
+                if isinstance(x, bytes):
+                    return x.decode()
+                if isinstance(x, (int, float, np.integer, np.floating)):
+                    return float(x)
+                return str(x)
+            return ({k: norm(x) for k, x in f_.waterfall.header.items()
+                     if (k.decode() if isinstance(k, bytes) else k) not in ('fch1', 'foff', 'nchans', 'tstart', 'tsamp', 'nbits', 'nifs')},)
+        wf0 = wf_state(fr)
         cp = fr.copy()
+        if had_wf:
+            # taking a copy is a read of the original: a frame that came with a Waterfall (its file's header) still has it
+            wf1 = wf_state(fr)
+            R.check(wf1 is not None and wf1[0] == wf0[0], 'copy:taking-a-copy-changed-the-original-waterfall',
+                    lost=wf1 is None, keys=[k for k in wf0[0] if wf1 is not None and wf1[0].get(k) != wf0[0][k]][:6])
     _frame_equal(R, fr, cp, 'copy', check_waterfall=had_wf)
     R.check(cp is not fr and not np.shares_memory(cp.data, fr.data) and cp.metadata is not fr.metadata and cp.rng is not fr.rng
             and not np.shares_memory(cp.fs, fr.fs) and not np.shares_memory(cp.ts, fr.ts), 'copy:shares-state-with-original')
@@ -293,7 +313,11 @@ def _copy(stg, c, tmp, R):
     R.check(np.array_equal(cp2.data, snap2[0]) and cp2.metadata == snap2[1], 'copy:mutating-the-original-changed-the-copy')
     # pickle
     p = os.path.join(tmp, 'fr.pickle')
+    wf0 = wf_state(fr)
     fr.save_pickle(p)
+    if wf0 is not None:
+        wf1 = wf_state(fr)
+        R.check(wf1 is not None and wf1[0] == wf0[0], 'pickle:saving-changed-the-original-waterfall', lost=wf1 is None)
     up = stg.Frame.load_pickle(p)
     _frame_equal(R, fr, up, 'pickle', check_waterfall=False)
     a = fr.add_noise(1.0, 1.0, noise_type='gaussian')
